@@ -664,6 +664,16 @@ fn judge(case: &Case, tgt: Tgt, pipe: Option<&XPipe>, out: &rssl::CompiledPipeli
     // ---- 1. every metadata entry matches the declaration with that name
     let mut entries_by_name: BTreeMap<String, u32> = BTreeMap::new();
     let mut nentries = 0;
+    // names that several metadata entries share: none of them can be attributed to a declaration
+    let mut name_count: BTreeMap<&str, u32> = BTreeMap::new();
+    for b in out.metadata.bind_groups.iter().flat_map(|g| g.bindings.iter()) {
+        *name_count.entry(b.name.as_str()).or_insert(0) += 1;
+    }
+    for (n, c) in &name_count {
+        if *c > 1 {
+            fails.push(Fail { class: "entry-name-ambiguous", detail: format!("{} declarations named `{}` in the metadata", c, n) });
+        }
+    }
     for (g, group) in out.metadata.bind_groups.iter().enumerate() {
         let g = g as u32;
         for b in &group.bindings {
@@ -671,6 +681,9 @@ fn judge(case: &Case, tgt: Tgt, pipe: Option<&XPipe>, out: &rssl::CompiledPipeli
             *entries_by_name.entry(b.name.clone()).or_insert(0) += 1;
             hist.add(&format!("desc={:?}", b.descriptor_type));
             let desc = format!("{:?}", b.descriptor_type);
+            if name_count.get(b.name.as_str()).copied().unwrap_or(0) > 1 {
+                continue;
+            }
             // the input declaration: by its own name, or by the name a generated `_<n>` suffix was appended to
             let source = res_by_name
                 .get(b.name.as_str())
